@@ -74,3 +74,12 @@ package ws
 //@
 //@ func (*listener).handler
 //@   before call:SetReadLimit#1 assert has(l.opts, mangos.OptionMaxRecvSize) && is_int(l.opts[mangos.OptionMaxRecvSize]) ==> arg0 == int_of(l.opts[mangos.OptionMaxRecvSize])
+
+// ---- round 5b: Listen ----
+//@ func (*listener).Listen
+//@   ghost wasClosed = l.closed at call:Lock#1
+//@   ensures wasClosed ==> result == mangos.ErrClosed && !spawned("Listen$1") && !called("ListenTCP")
+//@   ensures !wasClosed && l.noserve ==> isnil(result) && !spawned("Listen$1") && !called("ListenTCP")
+//@   ensures !isnil(result) ==> !spawned("Listen$1")
+//@   ensures isnil(result) && !l.noserve ==> spawned("Listen$1") && l.running && len(l.pending) == 0
+//@   before call:NewListener#1 assert l.iswss && arg1 == tcfg && tcfg != nil
